@@ -435,7 +435,53 @@ func evalPrepared(c *evalCase, p *prepared) (outcome, string, error) {
 	if err := resultMethods(impl, ref); err != nil {
 		return judged, "", fmt.Errorf("Exec(%q) from %s = %s: %v", c.Text, ctxNode.Ref(), ref.Describe(), err)
 	}
+	if len(c.Text)%3 == 0 {
+		// the ExecAs* helpers are Exec followed by the XPath conversion of the result
+		if err := helperEntryPoints(p.loc.ToCur[ctxNode], g, set, impl, ref); err != nil {
+			return judged, "", fmt.Errorf("%q from %s = %s: %v", c.Text, ctxNode.Ref(), ref.Describe(), err)
+		}
+	}
 	return judged, "", nil
+}
+
+func helperEntryPoints(cur store.Cursor, g *xsel.Grammar, set []xsel.ContextApply, impl xsel.Result, ref xref.Value) (err error) {
+	defer func() {
+		if r := recover(); r != nil {
+			err = fmt.Errorf("an ExecAs* helper panicked: %v", r)
+		}
+	}()
+	s, serr := xsel.ExecAsString(cur, g, set...)
+	if serr != nil {
+		return fmt.Errorf("ExecAsString failed (%v) although Exec succeeds", serr)
+	}
+	if want := ref.ToString(); s != want {
+		return fmt.Errorf("ExecAsString = %q, string() of the value is %q", s, want)
+	}
+	f, ferr := xsel.ExecAsNumber(cur, g, set...)
+	if ferr != nil {
+		return fmt.Errorf("ExecAsNumber failed (%v) although Exec succeeds", ferr)
+	}
+	if want := ref.ToNumber(); !(f == want || math.IsNaN(f) && math.IsNaN(want)) {
+		return fmt.Errorf("ExecAsNumber = %v, number() of the value is %v", f, want)
+	}
+	ns, nerr := xsel.ExecAsNodeset(cur, g, set...)
+	implNS, isNS := impl.(xsel.NodeSet)
+	switch {
+	case isNS && nerr != nil:
+		return fmt.Errorf("ExecAsNodeset failed (%v) although the result is a node-set", nerr)
+	case !isNS && nerr == nil:
+		return fmt.Errorf("ExecAsNodeset returned %d nodes and no error although the result is not a node-set", len(ns))
+	case isNS:
+		if len(ns) != len(implNS) {
+			return fmt.Errorf("ExecAsNodeset returned %d nodes, Exec %d", len(ns), len(implNS))
+		}
+		for i := range ns {
+			if ns[i] != implNS[i] {
+				return fmt.Errorf("ExecAsNodeset and Exec differ at index %d", i)
+			}
+		}
+	}
+	return nil
 }
 
 func checkEvalCase(c *evalCase) error {
